@@ -635,6 +635,30 @@ fn gen_c05(rng: &mut Rng, ctx: &mut Ctx, rep: &mut Report, emit: Emit) {
         if let Some(orig) = no_panic(|| b.to_cbor()) { let oh = hex(&orig); emit(ctx, rep, format!("cor {} {}", oh, oh)); }
     }
     rep.exhaustive_parts.push("every single-bit flip inside every block of every generated bundle".into());
+    // bundles whose blocks do NOT all have the same CRC type (appended last: the random stream of everything above is
+    // unchanged): primary block without CRC and one protected canonical block among unprotected ones, a protected primary
+    // block with unprotected canonical blocks, CRC-16 next to CRC-32 — every bit of every PROTECTED block flipped
+    for k in 0..ctx.n(24, 400) {
+        let mut b = gen_bundle(rng, &Opts { wf: true, max_blocks: 3 });
+        for c in b.canonicals.iter_mut() { if let CanonicalData::Data(d) = c.data().clone() { if d.len() > 16 { c.set_data(CanonicalData::Data(d[..16].to_vec())); } } if let CanonicalData::Unknown(d) = c.data().clone() { if d.len() > 16 { c.set_data(CanonicalData::Unknown(d[..16].to_vec())); } } }
+        b.set_crc(0);
+        let n = b.canonicals.len();
+        match k % 4 {
+            0 => { if n == 0 { continue; } let j = rng.below(n as u64) as usize; b.canonicals[j].set_crc_type(1 + (k / 4 % 2) as u8); }
+            1 => { b.primary.set_crc_type(1 + (k / 4 % 2) as u8); }
+            2 => { if n < 2 { continue; } b.canonicals[0].set_crc_type(1); b.canonicals[n - 1].set_crc_type(2); }
+            _ => { b.primary.set_crc_type(2); if n > 0 { b.canonicals[n - 1].set_crc_type(1); } }
+        }
+        let orig = b.to_cbor();
+        let oh = hex(&orig);
+        emit(ctx, rep, format!("cor {} {}", oh, oh));
+        let Some(blocks) = cborx::bundle_blocks(&orig) else { continue; };
+        for (i, r) in blocks.iter().enumerate() {
+            let protected = matches!(cborx::block_crc_check(&orig, *r, i == 0), Some((t, _, _)) if t == 1 || t == 2);
+            if !protected { continue; }
+            for p in r.0..r.1 { for bit in 0..8 { let mut v = orig.clone(); v[p] ^= 1 << bit; emit(ctx, rep, format!("cor {} {}", hex(&v), oh)); } }
+        }
+    }
 }
 
 /// The same item tree with some of its definite-length byte / text strings written as indefinite-length
